@@ -92,6 +92,8 @@ func simPlans(t *testing.T, thorough bool) []simPlan {
 		{Name: "performs-expected", JSON: head(36, 14, "400ms") + fmt.Sprintf(ocrConfigEvent, g+1) + ",\n " + gens("all") + "]}", F: 1},
 		{Name: "no-config-performs-expected", JSON: head(10, 4, "300ms") + gens("all") + "]}", F: 1},
 		{Name: "no-config-none-expected", JSON: head(10, 4, "300ms") + gens("none") + "]}", F: 1},
+		// the network is configured and performs, but the plan expects none: the run must fail
+		{Name: "none-expected-but-performed", JSON: head(30, 8, "400ms") + fmt.Sprintf(ocrConfigEvent, g+1) + ",\n " + gens("none") + "]}", F: 1},
 	}
 	if thorough {
 		for _, f := range []string{"simplan_fast_check.json", "only_log_trigger.json", "simplan_failed_rpc.json"} {
@@ -304,7 +306,7 @@ func runSimulations(t *testing.T, dir string, extra []map[string]any) {
 	plans := simPlans(t, thorough)
 	results := make([]simResult, len(plans))
 	var wg sync.WaitGroup
-	sem := make(chan struct{}, 3)
+	sem := make(chan struct{}, 4)
 	for i := range plans {
 		wg.Add(1)
 		go func(i int) {
